@@ -138,6 +138,67 @@ def hostile_messages(rng):
     return out
 
 
+def sibling_signatures():
+    """grammar-directed: many sibling complete types followed by something that makes the signature
+    invalid (or not) - the shape that makes an ambiguous signature recogniser backtrack"""
+    out = []
+    for unit in ('(y)', '{ys}', 'a(y)', 'a{ys}', '(yy)', 'ay', 'v', '((y))', 'a{s(y)}'):
+        for k in (3, 12, 20, 28, 40, 63):
+            for tail in ('', '(', '{', 'a(', '!', 'a', ')', '}', '(y', 'a{y'):
+                sg = (unit * k)[:250 - len(tail) - (250 - len(tail)) % len(unit)] + tail
+                if sg not in out:
+                    out.append(sg)
+    return out
+
+
+CPU_LIMIT = 30
+
+
+def cpu_cases():
+    out = []
+    for sg in sibling_signatures():
+        body = b'\0' * 16
+        for le in (True, False):
+            try:
+                out.append(('header sig=%s..%s (%d chars)' % (sg[:8], sg[-4:], len(sg)),
+                            refwire.msg(1, 79, [('path', '/p'), ('member', 'M'), ('signature', sg)], sg, None, le=le,
+                                        body_raw=body), len(sg)))
+            except Exception:
+                pass
+        vbody = bytes([len(sg)]) + sg.encode() + b'\0' + b'\0' * 24
+        out.append(('variant sig=%s..%s (%d chars)' % (sg[:8], sg[-4:], len(sg)),
+                    refwire.msg(4, 80, [('path', '/p'), ('interface', 'a.b'), ('member', 'M'), ('signature', 'v')], 'v',
+                                None, body_raw=vbody), len(sg)))
+    return out
+
+
+def run_cpu_child(cases):
+    """decode the cases in a child with RLIMIT_CPU; returns recs (the case the child died in is
+    recorded as outcome 'killed')"""
+    import binascii
+    import json
+    import subprocess
+    inp = json.dumps([binascii.hexlify(raw).decode() for _, raw, _ in cases])
+    p = subprocess.run([sys.executable, '-m', 'harness.c05_child', str(CPU_LIMIT)], input=inp.encode(),
+                       stdout=subprocess.PIPE, stderr=subprocess.PIPE, timeout=20 * CPU_LIMIT)
+    got = {}
+    for ln in p.stdout.decode().split('\n'):
+        if ln.startswith('{'):
+            r = json.loads(ln)
+            got[r['i']] = r
+    recs = []
+    for i, (name, raw, nsig) in enumerate(cases):
+        if i in got:
+            recs.append({'len': len(raw), 'siglen': nsig + 16, 'calls': 0, 'outcome': got[i]['outcome'],
+                         'cpu_ms': got[i]['cpu_ms']})
+        else:
+            if p.returncode >= 0 and i == len(got):
+                raise core.Machinery('c05_child failed: rc=%s %s' % (p.returncode, p.stderr.decode()[-400:]))
+            recs.append({'len': len(raw), 'siglen': nsig + 16, 'calls': 0, 'outcome': 'killed', 'cpu_ms': CPU_LIMIT * 1000})
+            break
+    return recs
+
+
 def run(tier, seed):
     chk = core.Check('C05', tier, seed)
     rng = random.Random(seed)
@@ -182,13 +243,21 @@ def run(tier, seed):
             nsig = 64
             b = bound(len(data), nsig)
             out, calls, r = counted(lambda: message.parseMessage(data, []), 4 * b)
-            recs.append({'len': len(data), 'siglen': nsig, 'calls': calls, 'outcome': out})
+            recs.append({'len': len(data), 'siglen': nsig, 'calls': calls, 'outcome': out, 'cpu_ms': 0})
             descr.append((name, data))
     for name, raw, nsig in hostile_messages(rng):
         b = bound(len(raw), nsig + 16)
         out, calls, r = counted(lambda: message.parseMessage(raw, []), 4 * b)
-        recs.append({'len': len(raw), 'siglen': nsig + 16, 'calls': calls, 'outcome': out})
+        recs.append({'len': len(raw), 'siglen': nsig + 16, 'calls': calls, 'outcome': out, 'cpu_ms': 0})
         descr.append((name, raw))
+    # work inside single C calls is invisible to the call counter: the sibling-container family (and the
+    # hostile signatures above) is decoded again in a child process under a CPU limit, CPU time recorded
+    cc_cases = cpu_cases() + hostile_messages(rng)
+    crecs = run_cpu_child(cc_cases)
+    chk.notes['cpu_timed_inputs'] = len(crecs)
+    chk.notes['worst_cpu_ms'] = max(r['cpu_ms'] for r in crecs)
+    recs.extend(crecs)
+    descr.extend((n_, raw_) for n_, raw_, _ in cc_cases[:len(crecs)])
     traces = [[({'n': 'Init'}, {'rec': r})] for r in recs]
     cc = 'CONSTANTS\n MaxLen = 1\n Alphabet = {0}\n ZeroOK = FALSE\n Fuel = 10\n'
     rej, stt = core.validate_traces('MC_Decoder', OBS, traces, {}, cfg_consts=cc, initpred='Dummy /\\ TraceWork', nproc=8)
@@ -199,7 +268,8 @@ def run(tier, seed):
     chk.notes['worst_calls_over_bound_mutations'] = round(max(r['calls'] / float(bound(r['len'], r['siglen'])) for r in recs), 3)
     for ti, _, _ in rej[:5]:
         name, data = descr[ti]
-        chk.violation('hostile input (%s, %d bytes): %s after %d calls' % (name, len(data), recs[ti]['outcome'], recs[ti]['calls']),
+        chk.violation('hostile input (%s, %d bytes): %s after %d calls, %d ms CPU' % (
+            name, len(data), recs[ti]['outcome'], recs[ti]['calls'], recs[ti]['cpu_ms']),
                       dict(kind='code->spec', module='c05', mutation=name, data=list(data[:400]), rec=recs[ti]))
     chk.sample({'mutation': descr[len(descr) // 2][0], 'rec': recs[len(descr) // 2]})
     # ---- canary
@@ -208,12 +278,14 @@ def run(tier, seed):
                                   initpred='Dummy /\\ TraceWork', nproc=1)
     chk.canary = {'what': 'a recorded decode relabelled as having exhausted its budget', 'rejected': bool(rej)}
     chk.assumptions = ['work is measured in interpreter call events (Python + C), at most %d per abstract decoding '
-                       'step plus %d' % (CALLS_PER_STEP, SLACK),
+                       'step plus %d; work inside one C call is measured as CPU time of a child process (at most 5 ms per '
+                       'abstract step plus 1 s; the child is killed after %d s of CPU)' % (CALLS_PER_STEP, SLACK, CPU_LIMIT),
                        'any Python exception is an acceptable rejection (Twisted closes that connection only)',
                        'memory is bounded indirectly: every appended element is a counted step']
     return chk.finish(
         rule='TLC decodes every byte string up to the bound over a small alphabet under hostile types (Bounded, '
              'InData; the ZeroOK deviation must violate Bounded); the implementation decodes the same inputs and '
              'every truncation / bit flip / length lie of a message corpus plus grammar-directed hostile signatures '
-             'under a call counter; TLC judges the recorded work against the linear bound',
+             'under a call counter, and grammar-directed sibling-container signatures in a CPU-limited child process; TLC '
+             'judges the recorded work (calls, CPU time) against the linear bound',
         exhaustive=False)
